@@ -70,3 +70,15 @@ package dns
 //@   checks safety
 //@ loop 1:
 //@   invariant len(p) >= 0 && fresh(&buf)
+
+// helpers the responder relies on (C11: index-safe for names of any length)
+//@ func (name Name) TrimSuffix(suffix Name) (Name, bool)
+//@   ensures @C11: true
+//@   assigns nothing
+//@   checks safety
+//@ loop 1:
+//@   invariant 0 <= i && i <= len(aft) && len(aft) == len(suffix) && split == len(name) - len(suffix) && split >= 0
+//@ func (message *Message) Opcode() uint16
+//@   assigns nothing
+//@ func (message *Message) Rcode() uint16
+//@   assigns nothing
